@@ -142,7 +142,7 @@ def run_case(case):
         d.update(opts=opts, plan=plan)
         viol.append({'rule': rule, 'mech': mech, 'detail': d})
 
-    def judge_exec(w, mode):
+    def judge_exec(w, mode, plan=plan):
         if w.raised is not None:
             V('run-aborted', 'run-raised', mode=mode,
               tb=(w.raised_tb or '')[-700:])
@@ -232,6 +232,30 @@ def run_case(case):
                     wp.verdict != ws.verdict:
                 V('verdict-differs-between-modes', 'selection-verdict',
                   seq=ws.verdict, par=wp.verdict, N=N)
+        # (d) a real process (sys.argv is the runner's own argument list)
+        # in which every test rewrites sys.argv in place, with layers that
+        # run in subprocesses afterwards
+        if k >= 1 and rng.random() < 0.12:
+            import copy
+            p4 = copy.deepcopy(plan) if plan else {}
+            for tid in tids:
+                t = p4.setdefault('tests', {}).setdefault(tid, {})
+                t['actions'] = list(t.get('actions') or []) + [
+                    {'ph': 'body', 'do': 'mutate_argv'}]
+            o4 = dict(opts)
+            if rng.random() < 0.5 or not spec['layers']:
+                o4['processes'] = 2
+            else:
+                for ls in spec['layers']:
+                    p4.setdefault('layers', {}).setdefault(
+                        ls['name'], {})['tearDown'] = 'nie'
+            wc = common.run_world(spec, p4, o4, root=root, mode='cli')
+            C('cli_argv_mutation_runs')
+            if wc.rc not in (0, 1):
+                V('run-aborted', 'run-raised', mode='cli',
+                  tb=(wc.raised_tb or '')[-600:])
+            else:
+                judge_exec(wc, 'cli-argv', p4)
     finally:
         vworld.destroy(root)
     if rep > 1:
